@@ -74,7 +74,7 @@ def run(c):
 
         def one(job):
             n, mode, env, chunk = job
-            t = c.record(rs, [mode], mpi=n, env=dict(mca, **env), out=c.path("s-%s-%d.ndjson" % (mode, n)), timeout=1800 if th else 400,
+            t = c.record(rs, [mode], mpi=n, env=dict(mca, **env), out=c.path("s-%s-%d.ndjson" % (mode, n)), timeout=2400 if th else 900,
                          hang_is_violation=True, sig={"np": n, "mode": mode})
             res = validate(t, "%s@%dranks" % (mode, n), chunk)
             if res is not None and mode == "aggr":
